@@ -8,7 +8,8 @@ from ..core import (AnalysisError, body_nodes, call_name, dotted, is_self_attr, 
                     names_in, params, parent, self_method_calls, stmts_of, unparse)
 from ..dtable import UNKNOWN, run_paths
 from ..dtable import _val as dval
-from ..pattern import find, pmatch
+from ..normal import inline_temps
+from ..pattern import find, guards_of, pmatch
 from ..flow import check_errflow
 
 MPO = 'tenpy/networks/mpo.py'
@@ -82,7 +83,14 @@ def check_hcflag_mpo(prog, rep):
                           'the MPO built by %s does not inherit explicit_plus_hc' % n, f.lineno)
     f = meths['__add__']
     rep.instance('HCFLAG-derived', {'method': 'MPO.__add__', 'check': 'equal flags'})
-    if 'self.explicit_plus_hc != other.explicit_plus_hc' not in unparse(f):
+    cmp_ok = False
+    for r in ast.walk(f):
+        if isinstance(r, ast.Raise):
+            g_ = {(t, pol) for t, pol, _ in guards_of(f, r)}
+            if ('self.explicit_plus_hc == other.explicit_plus_hc', False) in g_ or \
+                    ('other.explicit_plus_hc == self.explicit_plus_hc', False) in g_:
+                cmp_ok = True
+    if not cmp_ok:
         rep.violation('HCFLAG-derived', m, 'MPO.__add__', 'flags-not-compared',
                       'adding an MPO with implicit h.c. to one without must be rejected', f.lineno)
     # dagger: with the flag H = W + W^dagger is its own adjoint
@@ -146,8 +154,13 @@ def check_id_pairing(prog, rep):
     f = m.func('MPO.get_IdL')
     g = m.func('MPO.get_IdR')
     rep.instance('ID-pairing', {'function': 'get_IdL/get_IdR'})
-    if 'self.IdL[self._to_valid_site_index(i)]' not in unparse(f) or \
-            'self.IdR[self._to_valid_site_index(i) + 1]' not in unparse(g):
+    fi, gi = inline_temps(f), inline_temps(g)
+    pl, pr = params(f)[1], params(g)[1]
+    okl = any(isinstance(r, ast.Return) and pmatch(
+        'self.IdL[self._to_valid_site_index(%s)]' % pl, r.value) for r in ast.walk(fi))
+    okr = any(isinstance(r, ast.Return) and (pmatch(
+        'self.IdR[self._to_valid_site_index(%s) + 1]' % pr, r.value)) for r in ast.walk(gi))
+    if not (okl and okr):
         rep.violation('ID-pairing', m, 'MPO.get_IdR', 'accessor-offset',
                       'IdL[i] lives on the bond left of site i, IdR[i+1] on the bond right of it',
                       g.lineno)
